@@ -1,6 +1,6 @@
 /-
-  Lemmas about `Sbepp.Gen.Files`: disk lookups, the write loop without write
-  faults, which faults are recorded where.
+  Lemmas about `Sbepp.Gen.Files`: disk lookups, the write loop, which faults
+  are recorded where.
 -/
 import Sbepp.Gen.Files
 
@@ -27,46 +27,86 @@ theorem get_set_other (d : Disk) (p q : String) (c : Content) (h : q ≠ p) : (d
   have hq : (q == p) = false := by simpa using h
   simp [Disk.set, Disk.get, List.lookup, hq, lookup_filter_ne _ _ _ h]
 
-/-- without write faults `os << data` puts all of `data` into the file -/
+/-- a delivered fault that is an error (everything but a short count) -/
+def IsError (f : Family × Nat × Mode) : Prop := f.2.2 ≠ Mode.short
+
+/-- if no call returned an error, all of `data` is in the file and only short
+    counts were delivered -/
+theorem writeData_ok (sched : Schedule) : ∀ (fuel cnt : Nat) (data : Content), data.length < fuel →
+    (writeData sched fuel cnt data).failed = false →
+    (writeData sched fuel cnt data).data = data ∧ ∀ f ∈ (writeData sched fuel cnt data).fired, f.2.2 = Mode.short
+  | 0, _, _, h, _ => by omega
+  | fuel + 1, cnt, data, hl, hf => by
+    have ih := writeData_ok sched fuel (cnt + 1) (data.drop (data.length / 2))
+    by_cases hd : data = []
+    · simp [writeData, hd]
+    · cases hm : sched .write (cnt + 1) with
+      | none => simp [writeData, hd, hm]
+      | some m =>
+        cases m with
+        | fail => simp [writeData, hd, hm] at hf
+        | short =>
+          by_cases hlt : data.length < 2
+          · simp [writeData, hd, hm, hlt] at hf
+          · simp only [writeData, hd, hm, hlt, if_false] at hf ⊢
+            have hlen : (data.drop (data.length / 2)).length < fuel := by
+              simp only [List.length_drop]; omega
+            have := ih hlen hf
+            refine ⟨by rw [this.1, List.take_append_drop], ?_⟩
+            intro f hmem
+            simp only [List.mem_cons] at hmem
+            rcases hmem with rfl | hmem
+            · rfl
+            · exact this.2 f hmem
+        | shortfail =>
+          by_cases hlt : data.length < 2
+          · simp [writeData, hd, hm, hlt] at hf
+          · simp [writeData, hd, hm, hlt] at hf
+
+/-- if a call returned an error, an error fault was delivered -/
+theorem writeData_failed (sched : Schedule) : ∀ (fuel cnt : Nat) (data : Content),
+    (writeData sched fuel cnt data).failed = true → ∃ f ∈ (writeData sched fuel cnt data).fired, IsError f
+  | 0, _, _, h => by simp [writeData] at h
+  | fuel + 1, cnt, data, hf => by
+    have ih := writeData_failed sched fuel (cnt + 1) (data.drop (data.length / 2))
+    by_cases hd : data = []
+    · simp [writeData, hd] at hf
+    · cases hm : sched .write (cnt + 1) with
+      | none => simp [writeData, hd, hm] at hf
+      | some m =>
+        cases m with
+        | fail => simp [writeData, hd, hm, IsError]
+        | short =>
+          by_cases hlt : data.length < 2
+          · simp [writeData, hd, hm, hlt, IsError]
+          · simp only [writeData, hd, hm, hlt, if_false] at hf ⊢
+            obtain ⟨f, hmem, he⟩ := ih hf
+            exact ⟨f, by simp [hmem], he⟩
+        | shortfail =>
+          by_cases hlt : data.length < 2
+          · simp [writeData, hd, hm, hlt, IsError]
+          · simp [writeData, hd, hm, hlt, IsError]
+
+/-- without write faults nothing fails -/
 theorem writeData_clean (sched : Schedule) (hw : ∀ k, sched .write k = none) (fuel cnt : Nat) (data : Content) :
-    (writeData sched (fuel + 1) cnt data).data = data ∧ (writeData sched (fuel + 1) cnt data).fired = [] := by
+    (writeData sched (fuel + 1) cnt data).failed = false := by
   unfold writeData
   split
-  · rename_i h; simp [h]
+  · rfl
   · simp [hw]
 
-theorem writeData_fired_write (sched : Schedule) : ∀ (fuel cnt : Nat) (data : Content),
-    ∀ f ∈ (writeData sched fuel cnt data).fired, f.1 = Family.write
-  | 0, _, _ => by simp [writeData]
-  | fuel + 1, cnt, data => by
-    have ih := writeData_fired_write sched fuel (cnt + 1) (data.drop (data.length / 2))
-    unfold writeData
-    split
-    · simp
-    · split
-      · simp
-      · simp
-      · split
-        · simp
-        · intro f hf
-          simp only [List.mem_cons] at hf
-          rcases hf with rfl | hf
-          · rfl
-          · exact ih f hf
-      · split <;> simp
-
-/-- mkdir never touches files; on success it records no fault, on failure a mkdir fault -/
+/-- mkdir never touches files; on success it records no fault, on failure an error -/
 theorem mkdirs_spec (sched : Schedule) : ∀ (ds : List String) (st : St),
     (mkdirs sched ds st).2.disk.files = st.disk.files ∧
     ((mkdirs sched ds st).1 = true → (mkdirs sched ds st).2.fired = st.fired) ∧
-    ((mkdirs sched ds st).1 = false → ∃ k, (Family.mkdir, k) ∈ (mkdirs sched ds st).2.fired)
+    ((mkdirs sched ds st).1 = false → ∃ f ∈ (mkdirs sched ds st).2.fired, IsError f)
   | [], st => by simp [mkdirs]
   | d :: r, st => by
     unfold mkdirs
     split
     · exact mkdirs_spec sched r st
     · split
-      · simp
+      · refine ⟨rfl, by simp, fun _ => ⟨(.mkdir, st.nMkdir + 1, .fail), by simp, by simp [IsError]⟩⟩
       · exact mkdirs_spec sched r _
 
 theorem mkdirs_noFault (sched : Schedule) (hm : ∀ k, sched .mkdir k = none) : ∀ (ds : List String) (st : St),
@@ -79,40 +119,49 @@ theorem mkdirs_noFault (sched : Schedule) (hm : ∀ k, sched .mkdir k = none) : 
     · simp only [hm]
       exact mkdirs_noFault sched hm r _
 
-/-- one `write_file` -/
+theorem closeFault_cases (sched : Schedule) (k : Nat) :
+    closeFault sched k = [] ∨ closeFault sched k = [(Family.close, k, Mode.fail)] := by
+  unfold closeFault
+  split <;> simp
+
+/-- one successful `write_file`: the file is complete, only short counts were delivered -/
 theorem writeFile_true (sched : Schedule) (st : St) (p : String) (data : Content)
     (h : (writeFile sched st p data).1 = true) :
-    (writeFile sched st p data).2.disk = st.disk.set p (writeData sched (data.length + 1) st.nWrite data).data ∧
-    (∀ f ∈ (writeFile sched st p data).2.fired, f ∈ st.fired ∨ f.1 = Family.write ∨ f.1 = Family.close) := by
+    (writeFile sched st p data).2.disk = st.disk.set p data ∧
+    (∀ f ∈ (writeFile sched st p data).2.fired, f ∈ st.fired ∨ f.2.2 = Mode.short) := by
   unfold writeFile at h ⊢
   split
   · rename_i ho; simp [ho] at h
-  · refine ⟨rfl, ?_⟩
+  · rename_i ho
+    simp only [ho, Bool.and_eq_true, Bool.not_eq_true', List.isEmpty_iff] at h
+    have wd := writeData_ok sched (data.length + 1) st.nWrite data (by omega) h.1
+    refine ⟨by simp only [wd.1], ?_⟩
     intro f hf
-    simp only [List.mem_append] at hf
-    rcases hf with (hf | hf) | hf
+    simp only [List.mem_append, h.2, List.not_mem_nil, or_false] at hf
+    rcases hf with hf | hf
     · exact Or.inl hf
-    · exact Or.inr (Or.inl (writeData_fired_write sched _ _ _ f hf))
-    · right; right
-      unfold closeFault at hf
-      split at hf
-      · simp only [List.mem_singleton] at hf; subst hf; rfl
-      · simp at hf
+    · exact Or.inr (wd.2 f hf)
 
+/-- a failed `write_file` delivered an error -/
 theorem writeFile_false (sched : Schedule) (st : St) (p : String) (data : Content)
     (h : (writeFile sched st p data).1 = false) :
-    (Family.open, st.nOpen + 1) ∈ (writeFile sched st p data).2.fired ∧
-    (writeFile sched st p data).2.disk = st.disk := by
+    ∃ f ∈ (writeFile sched st p data).2.fired, IsError f := by
   unfold writeFile at h ⊢
   split
-  · simp
-  · rename_i ho; simp [ho] at h
+  · exact ⟨(.open, st.nOpen + 1, .fail), by simp, by simp [IsError]⟩
+  · rename_i ho
+    simp only [ho, Bool.and_eq_false_iff, Bool.not_eq_false'] at h
+    rcases h with h | h
+    · obtain ⟨f, hm, he⟩ := writeData_failed sched _ _ _ h
+      exact ⟨f, by simp [hm], he⟩
+    · rcases closeFault_cases sched (st.nClose + 1) with hc | hc
+      · rw [hc] at h; simp at h
+      · exact ⟨(.close, st.nClose + 1, .fail), by simp [hc], by simp [IsError]⟩
 
 def paths (fs : List (String × Content)) : List String := fs.map (·.1)
 
-/-- all files of a successful emission without write faults are complete;
-    nothing else changes -/
-theorem writeFiles_complete (sched : Schedule) (hw : ∀ k, sched .write k = none) :
+/-- all files of a successful emission are complete; nothing else changes -/
+theorem writeFiles_complete (sched : Schedule) :
     ∀ (fs : List (String × Content)) (st : St), (paths fs).Nodup → (writeFiles sched fs st).1 = true →
       (∀ pc ∈ fs, (writeFiles sched fs st).2.disk.get pc.1 = some pc.2) ∧
       (∀ q, q ∉ paths fs → (writeFiles sched fs st).2.disk.get q = st.disk.get q)
@@ -129,10 +178,9 @@ theorem writeFiles_complete (sched : Schedule) (hw : ∀ k, sched .write k = non
         simp only [] at h ⊢
         have h1 := writeFile_true sched st p c (by rw [hwf])
         rw [hwf] at h1
-        have hd : s1.disk = st.disk.set p c := by
-          rw [h1.1, (writeData_clean sched hw _ _ _).1]
+        have hd : s1.disk = st.disk.set p c := h1.1
         simp only [paths, List.map_cons, List.nodup_cons] at hnd
-        have ih := writeFiles_complete sched hw r s1 hnd.2 h
+        have ih := writeFiles_complete sched r s1 hnd.2 h
         refine ⟨?_, ?_⟩
         · intro pc hpc
           rcases List.mem_cons.mp hpc with rfl | hpc
@@ -146,8 +194,8 @@ theorem writeFiles_complete (sched : Schedule) (hw : ∀ k, sched .write k = non
 theorem writeFiles_fired (sched : Schedule) :
     ∀ (fs : List (String × Content)) (st : St),
       ((writeFiles sched fs st).1 = true →
-        ∀ f ∈ (writeFiles sched fs st).2.fired, f ∈ st.fired ∨ f.1 = Family.write ∨ f.1 = Family.close) ∧
-      ((writeFiles sched fs st).1 = false → ∃ k, (Family.open, k) ∈ (writeFiles sched fs st).2.fired)
+        ∀ f ∈ (writeFiles sched fs st).2.fired, f ∈ st.fired ∨ f.2.2 = Mode.short) ∧
+      ((writeFiles sched fs st).1 = false → ∃ f ∈ (writeFiles sched fs st).2.fired, IsError f)
   | [], st => by
     simp only [writeFiles]
     exact ⟨fun _ f hf => Or.inl hf, by simp⟩
@@ -159,9 +207,9 @@ theorem writeFiles_fired (sched : Schedule) :
       | false =>
         simp only []
         refine ⟨by simp, fun _ => ?_⟩
-        have := (writeFile_false sched st p c (by rw [hwf])).1
+        have := writeFile_false sched st p c (by rw [hwf])
         rw [hwf] at this
-        exact ⟨_, this⟩
+        exact this
       | true =>
         simp only []
         have h1 := (writeFile_true sched st p c (by rw [hwf])).2
@@ -173,20 +221,22 @@ theorem writeFiles_fired (sched : Schedule) :
         · exact h1 f h'
         · exact Or.inr h'
 
-/-- without open faults the emission does not stop -/
-theorem writeFiles_noFault (sched : Schedule) (ho : ∀ k, sched .open k = none) :
+/-- without faults the emission does not stop -/
+theorem writeFiles_noFault (sched : Schedule) (ho : ∀ k, sched .open k = none) (hw : ∀ k, sched .write k = none)
+    (hc : ∀ k, sched .close k = none) :
     ∀ (fs : List (String × Content)) (st : St), (writeFiles sched fs st).1 = true
   | [], st => rfl
   | (p, c) :: r, st => by
     unfold writeFiles
     have : (writeFile sched st p c).1 = true := by
       unfold writeFile
-      simp only [ho]
+      simp only [ho, writeData_clean sched hw, closeFault, hc]
+      rfl
     cases hwf : writeFile sched st p c with
     | mk o s1 =>
       rw [hwf] at this
       simp only [] at this
       subst this
-      exact writeFiles_noFault sched ho r s1
+      exact writeFiles_noFault sched ho hw hc r s1
 
 end Sbepp.Gen.Files
